@@ -207,11 +207,9 @@ var safeRe = regexp.MustCompile(`[^A-Za-z0-9_.-]+`)
 func (c *Ctx) Finish() int {
 	c.mu.Lock()
 	defer c.mu.Unlock()
-	if len(c.broken) > 0 {
-		for _, b := range c.broken {
-			fmt.Printf("BROKEN: property=%s %s\n", c.ID, b)
-		}
-		return 2
+	isBroken := len(c.broken) > 0
+	for _, b := range c.broken {
+		fmt.Printf("BROKEN: property=%s %s\n", c.ID, b)
 	}
 	keys := make([]string, 0, len(c.viol))
 	for k := range c.viol {
@@ -240,10 +238,11 @@ func (c *Ctx) Finish() int {
 		g := groupOf(k)
 		perGroup[g]++
 		if perGroup[g] <= 4 && len(unknownLines) < 60 {
-			name := fmt.Sprintf("%s-%s.json", c.ID, safeRe.ReplaceAllString(k, "_"))
-			if len(name) > 120 {
-				name = fmt.Sprintf("%s-%03d-%s.json", c.ID, nUnknown, safeRe.ReplaceAllString(k, "_")[:80])
+			safe := safeRe.ReplaceAllString(k, "_")
+			if len(safe) > 80 {
+				safe = safe[:80]
 			}
+			name := fmt.Sprintf("%s-%s-%08x.json", c.ID, safe, fnv32(k))
 			p := filepath.Join(ReplayDir(), name)
 			b, _ := json.MarshalIndent(map[string]any{"property": c.ID, "key": v.Key, "what": v.What, "count": v.Count, "replay": v.Replay}, "", " ")
 			os.WriteFile(p, b, 0644)
@@ -251,6 +250,7 @@ func (c *Ctx) Finish() int {
 			fmt.Printf("  violation key=%s :: %s\n", v.Key, trunc(v.What, 600))
 		}
 	}
+	os.Remove(filepath.Join(ReplayDir(), c.ID+"-summary.txt"))
 	if nUnknown > 0 {
 		var sb strings.Builder
 		for _, k := range keys {
@@ -328,10 +328,22 @@ func (c *Ctx) Finish() int {
 	}
 	fmt.Printf("%s %s: evaluations=%d distinct_nontrivial=%d states=%d transitions=%d exhaustive=%v violations=%d known=%d wall=%.1fs\n",
 		c.ID, c.Tier, c.Evaluations, c.DistinctNontrivial, c.States, c.Transitions, c.Exhaustive, nUnknown, nKnown, time.Since(c.start).Seconds())
+	if isBroken {
+		return 2
+	}
 	if nUnknown > 0 {
 		return 1
 	}
 	return 0
+}
+
+func fnv32(s string) uint32 {
+	h := uint32(2166136261)
+	for i := 0; i < len(s); i++ {
+		h ^= uint32(s[i])
+		h *= 16777619
+	}
+	return h
 }
 
 func trunc(s string, n int) string {
